@@ -14,12 +14,12 @@ The reference knows nothing of the implementation's state machine. For sequences
 `linked ev* synced ev* unlinked (relink ..)` (and after `bad` / `eof`) only the absence of a panic is required.
 
 When the observed output differs from the reference the monitor *names* the deviation if the output is explained by
-one of four precisely described behaviours (so that KNOWN_FINDINGS can be keyed on the class of the witness):
-  clear-ignored-while-suppressed   the replica is the fold in which `clear` is skipped while callbacks are suppressed
-  local-write-folded               the replica is the fold that also applies the downlink's own writes
-  takedrop-callbacks-while-suppressed   `take`/`drop` fired `on_remove` although callbacks are suppressed
-  drop-on_remove-empty-map         `drop n` handed every `on_remove` the empty map
-Anything else is reported under a generic reason.
+one precisely described behaviour (so that KNOWN_FINDINGS can be keyed on the class of the witness):
+  local-write-folded               the replica is the fold that also applies the downlink's own writes (F6)
+Anything else is reported under a generic reason. (The classes of the repaired F5 / F5b — `clear` skipped while
+callbacks are suppressed, take/drop callbacks ignoring `dispatch`, `drop` showing `on_remove` the empty map — are no
+longer named: they would now surface as `on_synced-map-differs-from-fold`, `callbacks-while-suppressed`,
+`callbacks-differ-from-fold`.)
 -/
 import SwimVerif.Model.DownlinkTask
 
@@ -52,9 +52,6 @@ def refShapes (m : AMap) (e : Msg) : List (List Cb) :=
       ++ (if m.length ≤ n then [[.clear m]] else [])
       ++ (if gone.isEmpty then [[]] else [])
 
-/-- the client's `drop` shape: every `on_remove` sees the empty map -/
-def dropEmptyShape (m : AMap) (n : Nat) : List Cb := (m.take n).map fun p => .remove p.1 p.2 []
-
 structure Mon where
   started : Bool := false
   isMap : Bool := true
@@ -62,23 +59,15 @@ structure Mon where
   tou : Bool := false
   phase : Phase := .U
   illegal : Bool := false
-  /-- reference folds: spec, clear-skipped-while-suppressed, local-writes-folded, both -/
+  /-- reference folds: the fold of the received notifications, and the one that also applies local writes (F6) -/
   r : AMap := []
-  r5 : AMap := []
   r6 : AMap := []
-  r56 : AMap := []
   v : Option Int := none
   deriving Repr
 
 def renderCbs (cbs : List Cb) (fin : Option Fin) : String := renderOut cbs fin
 
 def Mon.disp (m : Mon) : Bool := m.phase = .S || m.ews
-
-/-- the fold in which a `clear` is skipped while callbacks are suppressed -/
-def apply5 (suppressed : Bool) (m : AMap) (e : Msg) : AMap :=
-  match e with
-  | .clear => if suppressed then m else []
-  | _ => applyMsg m e
 
 def tagsToReason (tags : List String) : String := "deviation:" ++ "+".intercalate tags
 
@@ -88,28 +77,9 @@ def classifyEvent (mon : Mon) (e : Msg) (observed : String) : Option String :=
   let ok (ref : AMap) : Bool :=
     if d then (refShapes ref e).any fun cbs => renderCbs cbs none == observed
     else observed == "-"
-  let supp (ref : AMap) : Bool :=   -- callbacks although suppressed (only take/drop shapes)
-    !d && (match e with | .take _ => true | .drop _ => true | _ => false) && observed != "-" &&
-      ((refShapes ref e).any (fun cbs => renderCbs cbs none == observed) ||
-        (match e with | .drop n => renderCbs (dropEmptyShape ref n) none == observed | _ => false))
-  let emp (ref : AMap) : Bool :=
-    match e with
-    | .drop n => observed != "-" && renderCbs (dropEmptyShape ref n) none == observed
-    | _ => false
   if ok mon.r then none
-  else
-    let variants : List (AMap × List String) :=
-      [(mon.r, []), (mon.r5, ["clear-ignored-while-suppressed"]), (mon.r6, ["local-write-folded"]),
-       (mon.r56, ["clear-ignored-while-suppressed", "local-write-folded"])]
-    let hit := variants.findSome? fun (ref, tags) =>
-      if !tags.isEmpty && ok ref then some tags
-      else if supp ref then some (tags ++ ["takedrop-callbacks-while-suppressed"] ++
-          (if emp ref && !(refShapes ref e).any (fun cbs => renderCbs cbs none == observed) then ["drop-on_remove-empty-map"] else []))
-      else if d && emp ref then some (tags ++ ["drop-on_remove-empty-map"])
-      else none
-    match hit with
-    | some tags => some (tagsToReason tags)
-    | none => some (if d then "callbacks-differ-from-fold" else "callbacks-while-suppressed")
+  else if ok mon.r6 then some (tagsToReason ["local-write-folded"])
+  else some (if d then "callbacks-differ-from-fold" else "callbacks-while-suppressed")
 
 def containsSynced (observed : String) : Bool := (observed.splitOn "on_synced").length > 1
 
@@ -119,26 +89,21 @@ def Mon.stepMap (mon : Mon) (op : MOp) (observed : String) : Mon × Option Strin
   match op with
   | .note .linked =>
     if mon.phase = .U then
-      ({ mon with phase := .L, r := [], r5 := [], r6 := [], r56 := [] },
+      ({ mon with phase := .L, r := [], r6 := [] },
         if observed == "on_linked" then none else some "on_linked-expected")
     else ({ mon with illegal := true }, none)
   | .note .synced =>
     if mon.phase = .L then
       let m1 := { mon with phase := .S }
       if observed == renderCbs [.syncedM mon.r] none then (m1, none)
-      else if observed == renderCbs [.syncedM mon.r5] none then (m1, some (tagsToReason ["clear-ignored-while-suppressed"]))
       else if observed == renderCbs [.syncedM mon.r6] none then (m1, some (tagsToReason ["local-write-folded"]))
-      else if observed == renderCbs [.syncedM mon.r56] none then
-        (m1, some (tagsToReason ["clear-ignored-while-suppressed", "local-write-folded"]))
       else if !containsSynced observed then (m1, some "on_synced-missing")
       else if (observed.splitOn "on_synced").length > 2 then (m1, some "on_synced-repeated")
       else (m1, some "on_synced-map-differs-from-fold")
     else ({ mon with illegal := true }, none)
   | .note (.ev e) =>
     if mon.phase = .L || mon.phase = .S then
-      let supp := !mon.disp
-      let m1 := { mon with r := applyMsg mon.r e, r5 := apply5 supp mon.r5 e, r6 := applyMsg mon.r6 e,
-                           r56 := apply5 supp mon.r56 e }
+      let m1 := { mon with r := applyMsg mon.r e, r6 := applyMsg mon.r6 e }
       if containsSynced observed then (m1, some "on_synced-outside-synced-notification")
       else (m1, classifyEvent mon e observed)
     else ({ mon with illegal := true }, none)
@@ -150,8 +115,7 @@ def Mon.stepMap (mon : Mon) (op : MOp) (observed : String) : Mon × Option Strin
         ({ mon with phase := .U }, if observed == "on_unlinked" then none else some "on_unlinked-expected")
     else ({ mon with illegal := true }, none)
   | .write w =>
-    ({ mon with r6 := if mon.phase = .L || mon.phase = .S then applyW mon.r6 w else mon.r6,
-                r56 := if mon.phase = .L || mon.phase = .S then applyW mon.r56 w else mon.r56 },
+    ({ mon with r6 := if mon.phase = .L || mon.phase = .S then applyW mon.r6 w else mon.r6 },
       if observed == "-" then none else some "local-write-caused-output")
   | .bad => (mon.endPhase, none)
   | .eof => (mon.endPhase, none)
@@ -205,7 +169,7 @@ def Mon.step (mon : Mon) (line : String) (observed : String) : Mon × Option Str
     else if mon.illegal then (mon, none)
     else if ws = ["reconnect"] then
       -- a restarted channel starts a fresh link (hosted only); `refused` leaves it finished
-      if observed == "ok" then ({ mon with phase := .U, r := [], r5 := [], r6 := [], r56 := [], v := none }, none)
+      if observed == "ok" then ({ mon with phase := .U, r := [], r6 := [], v := none }, none)
       else (mon, none)
     else if mon.phase = .E then
       (mon, if observed == "gone" then none else some "output-after-termination")
